@@ -309,6 +309,8 @@ def bounded_inline_lang(ctx, b):
 def run(ctx):
     P = ctx.prove
     P("base.CaptionSet.get_languages", get_languages_order, functions=[CS.get_languages])
+    import props.C09_accessors as AC
+    AC.prove_accessors(ctx)           # (asking for a language that is not there adds none)
     P("dfxp.LegacyDFXPWriter._force_language", legacy_force, functions=[LegacyDFXPWriter._force_language])
     # DFXPWriter.write: force= selects exactly the named language, otherwise every language is written, in order, each
     # with its own captions (skeleton contract shared with C07)
